@@ -6,6 +6,7 @@ import (
 	"go/printer"
 	"go/token"
 	"go/types"
+	"npverif/internal/facts"
 	"sort"
 	"strings"
 
@@ -424,4 +425,43 @@ func stmtTerminates(info *types.Info, s ast.Stmt) bool {
 		return hasDefault
 	}
 	return false
+}
+
+// InlineBool resolves a call to a one-line boolean helper of the module
+// (`func f(...) bool { return <expr> }`) for facts.InlineHook.
+func (p *Program) InlineBool(info *types.Info, call *ast.CallExpr) *facts.InlineBody {
+	fn := Callee(info, call)
+	if fn == nil || !p.IsModuleFunc(fn) {
+		return nil
+	}
+	fd := p.ByObj[fn]
+	if fd == nil || fd.Decl.Body == nil || len(fd.Decl.Body.List) != 1 {
+		return nil
+	}
+	ret, ok := fd.Decl.Body.List[0].(*ast.ReturnStmt)
+	if !ok || len(ret.Results) != 1 {
+		return nil
+	}
+	sig := fn.Type().(*types.Signature)
+	if sig.Variadic() || sig.Results().Len() != 1 {
+		return nil
+	}
+	if b, ok := sig.Results().At(0).Type().Underlying().(*types.Basic); !ok || b.Kind() != types.Bool {
+		return nil
+	}
+	hasLit := false
+	ast.Inspect(ret.Results[0], func(n ast.Node) bool {
+		if _, ok := n.(*ast.FuncLit); ok {
+			hasLit = true
+		}
+		return true
+	})
+	if hasLit {
+		return nil
+	}
+	ib := &facts.InlineBody{Expr: ret.Results[0], Info: fd.Pkg.TypesInfo, Recv: sig.Recv()}
+	for i := 0; i < sig.Params().Len(); i++ {
+		ib.Params = append(ib.Params, sig.Params().At(i))
+	}
+	return ib
 }
